@@ -54,7 +54,7 @@ COMPONENTS = {
 PROBES = ["dir_fastavro_writes", "dir_peer_writes", "fixture", "is_avro", "empty_block", "multi_chunk_header",
           "codec_key_absent", "deflate_trailing_bytes", "codec_null", "codec_deflate", "codec_bzip2", "codec_xz",
           "tiling_ge2_blocks", "is_avro_path", "is_avro_true", "is_avro_false", "foreign_block_ge64_records",
-          "foreign_big_header", "profile_many_records", "profile_huge_record", "append_to_foreign_file"]
+          "foreign_big_header", "profile_many_records", "profile_huge_record", "append_to_foreign_file", "append_revised_schema"]
 
 _FIXTURES = None
 
@@ -130,8 +130,18 @@ def fastavro_writes(F, ch, ctx):
                                              codec_key=(fcodec != "null") or ch.chance(40), meta=sc.metadata, layout=refavro.Layout(ch))
         fo = io.BytesIO(fbytes)
         fo.seek(0, 2)
+        how = ch.draw(3)
+        aschema = None if how == 0 else sc.schema
+        if how == 2:
+            # a later revision of the schema (same names, other definitions): the header's one decides
+            aschema = common.revised_schema(ch, sc.schema)
+            try:
+                F.parse_schema(json.loads(json.dumps(aschema)))
+                ctx.probe("append_revised_schema")
+            except Exception:  # noqa
+                aschema = None
         try:
-            F.writer(fo, None if ch.draw(2) else sc.schema, sc.records[cutp:], codec=ch.pick(common.CODECS),
+            F.writer(fo, aschema, sc.records[cutp:], codec=ch.pick(common.CODECS),
                      sync_interval=sc.sync_interval, metadata={"other": "m"} if ch.draw(2) else None)
         except Exception as e:  # noqa
             raise Violation("layout", "append-to-foreign-file-raises", detail=dict(info, exc=jsonable(e)), scenario=desc)
